@@ -245,8 +245,7 @@ func (k *Checker) checkEntry(n *Node, st *raft.VerifState, e *pb.Entry, prevTerm
 		if g := k.gAt(e.GetIndex()); g != nil {
 			k.count("sm.never_replaced")
 			if g.term != e.GetTerm() || g.hash != hashEntry(e) {
-				prop := "C01"
-				k.report(prop, "sm.never_replaced", n, fmt.Sprintf("log position %d (<= commit %d) holds (term=%d) but the committed entry there has term %d", e.GetIndex(), st.Committed, e.GetTerm(), g.term), "")
+				k.report2("C01", "sm.never_replaced", "C04", "lc.no_overwrite", n, fmt.Sprintf("log position %d (<= commit %d) holds (term=%d) but the committed entry there has term %d", e.GetIndex(), st.Committed, e.GetTerm(), g.term), "")
 				return
 			}
 		}
